@@ -54,6 +54,9 @@ EDIT_CLASSES = [
     ("param_int_width", False, "ParameterHashData", "rust_type"),
     ("ret_int_width", False, "CommandHashData", "return_type"),
     ("chan_cmd_rename_all", False, "CommandHashData", "serde_rename_all"),
+    # a type so far only in the error position of a `Result` starts being emitted; a member-less type changes its kind
+    ("emit_error_type", False, "EventHashData", "payload_type"),
+    ("unit_kind", False, "StructHashData", "is_enum"),
     ("cmd_order", False, "CommandHashData", "name"),
     ("param_order", False, "ParameterHashData", "name"),
     ("field_order", False, "FieldHashData", "name"),
@@ -126,6 +129,15 @@ def render_sources(st):
     files = {"src/models.rs": src, "src/commands.rs": cmds, "src/lib.rs": "mod models;\nmod commands;\n"}
     files["src/keys.rs"] = "#[tauri::command]\npub fn import_key(key: %s, label: String) -> bool {\n    true\n}\n" % alt(
         g("array_param_elem"), ["[u8; 4]", "[String; 4]", "[bool; 2]"])
+    dup = ['    app.emit("dup-event", AuditDetail::default()).ok();\n', '    app.emit("dup-event", AuditInfo::default()).ok();\n']
+    files["src/errors.rs"] = (
+        "use serde::{Deserialize, Serialize};\nuse tauri::Emitter;\nuse crate::models::*;\n\n"
+        "#[derive(Debug, Clone, Default, Serialize, Deserialize)]\npub struct AppError {\n    pub code: i32,\n    pub reason: String,\n}\n\n"
+        "#[derive(Debug, Clone, Serialize, Deserialize)]\n%s\n\n"
+        "#[tauri::command]\npub fn risky(app: tauri::AppHandle, token: Token) -> Result<u8, AppError> {\n%s%s    Ok(1)\n}\n"
+        % (alt(g("unit_kind"), ["pub struct Token;", "pub enum Token {}", "pub struct Token {}"]),
+           alt(g("emit_error_type"), ["", '    app.emit("risky-failed", AppError { code: 1, reason: String::new() }).ok();\n']),
+           "" if st.get("_noevents", False) else "".join(dup)))
     files["src/stream.rs"] = (
         "use tauri::ipc::Channel;\n\n#[tauri::command]\n%spub fn stream_only(app: tauri::AppHandle, on_progress: Channel<i32>, on_done_signal: Channel<bool>) {}\n\n"
         "#[tauri::command]\npub fn widths(count: %s, names: &str) -> %s {\n    todo!()\n}\n"
@@ -140,6 +152,7 @@ def render_sources(st):
     if st.get("_nocommands", False):
         files.pop("src/keys.rs")
         files.pop("src/stream.rs")
+        files.pop("src/errors.rs")
         files.pop("src/bin/helper.rs", None)
     return files
 
